@@ -202,6 +202,34 @@ def find_sites(F, scope_keys, cf, callee_filter, rule, allow, family_excluded,
     """Yield Obligations for every can-fail call in scope."""
     out = []
     used_allow = set()
+    rev = {}
+
+    def callers_of(fn):
+        if not rev:
+            for k, outs in F.callgraph().items():
+                for o in outs:
+                    rev.setdefault(o, set()).add(k)
+        return [F.fns[c] for c in rev.get(fn.key, ()) if c in F.fns]
+
+    def allow_via_callers(fn, cbase, depth=0):
+        """a file-local helper (anonymous namespace / lambda) inherits the allow entry when every caller
+        has one for the same callee: the reviewed block of code was moved, not changed"""
+        if depth > 2 or not (fn.is_lambda or "(anonymous namespace)" in fn.name):
+            return None
+        cs = callers_of(fn)
+        if not cs:
+            return None
+        keys = []
+        for c in cs:
+            k = "%s|%s" % (c.base, cbase)
+            if k in allow:
+                keys.append(k)
+                continue
+            sub = allow_via_callers(c, cbase, depth + 1)
+            if sub is None:
+                return None
+            keys += sub
+        return keys
     for key in sorted(scope_keys):
         fn = F.fns.get(key)
         if fn is None:
@@ -240,6 +268,13 @@ def find_sites(F, scope_keys, cf, callee_filter, rule, allow, family_excluded,
                 out.append(Obligation(rule, fn.base, cbase, site, ALLOWED,
                                       detail="result discarded", by=allow[akey],
                                       control=is_control))
+                continue
+            via = allow_via_callers(fn, cbase)
+            if via:
+                used_allow.update(via)
+                out.append(Obligation(rule, fn.base, cbase, site, ALLOWED,
+                                      detail="result discarded in a file-local helper of an allowed site",
+                                      by=allow[via[0]], control=is_control))
                 continue
             out.append(Obligation(rule, fn.base, cbase, site, VIOLATION,
                                   detail="result of fallible call discarded (%s); callee can fail: %s"
